@@ -411,8 +411,12 @@ def chain(prog, i):
     return out[::-1]
 
 
-def resolve(prog, i):
-    """Flat, documented meaning of class ``i`` (python inheritance)."""
+def resolve(prog, i, nonstr_regex="str"):
+    """Flat, documented meaning of class ``i`` (python inheritance).
+
+    ``nonstr_regex``: whether a regex-designated check applies to a column
+    whose name is not a string ("str": match on str(name); "skip": never) -
+    the documentation does not say, callers accept both readings."""
     cols = {}          # attr -> column description (insertion ordered)
     overridden = False
     methods = {}       # method name -> (kind, definition)
@@ -466,7 +470,8 @@ def resolve(prog, i):
         if kind == "checks":
             if d["regex"]:
                 tg = [c for c in columns
-                      if any(re.match(p, str(c["name"])) for p in d["targets"])]
+                      if (isinstance(c["name"], str) or nonstr_regex == "str")
+                      and any(re.match(p, str(c["name"])) for p in d["targets"])]
             elif d["by"] == "field":
                 tg = [by_attr[a] for a in d["targets"]]
             else:
